@@ -233,6 +233,9 @@ def run(chk):
     from rules.C01 import executor_wiring
 
     executor_wiring(chk, "O7.5", drv)
+    from rules.C06 import lazy_batch_rule
+
+    lazy_batch_rule(chk, "O7.5", drv)
 
     # ---- O7.6 hand-over ---------------------------------------------------------------------------------------------------------------------
     chk.rule("O7.6", "every to_externalizable call in the driver passes clear=True, is preceded on every path by post-processing, and its value flows through the "
